@@ -23,8 +23,8 @@ CHECKS = {
             "to the model's routine graphs by a checked certificate and executed on the Lean AVM spec against the Lean source semantics on generated "
             "contexts. For programs inside inFragmentR (reported per run) the model graphs are PROVED to mean what the source program means.",
             "Trusted: AVM frame rules (callsub/retsub/proto/frame_dig/frame_bury), the source semantics of calls in Src.lean. Not proved (executed "
-            "only): ABI outputs, WideRatio inside call graphs, the optimiser, invariance of the "
-            "source semantics under the bijective variable renaming, ABI subroutines.",
+            "only): ABI outputs / ABI subroutines, WideRatio inside call graphs, the optimiser. The theorems speak about the ORIGINAL "
+            "program (renaming invariance Proofs/Rename.lean under the decidable renameOk, evaluated per program).",
             "DESIGN.md Part II C02"),
     "C03": ("proof",
             "Lean 4 proof (partial, labelled): slot_to_stack_sound_partial / optimizer_only_removes / execPrim_frame on a model of the scratch-slot optimiser (Iterate order, candidate scan, dependency scan, removal) against the block-graph machine; optimizer_counterexample proves the unrestricted statement false (known finding); the model is compared with the real apply_global_optimizations on generated block graphs; version and frame-pointer settings are decided by option-pair differential execution of the real TEAL texts incl. stack at every routine exit",
